@@ -406,7 +406,9 @@ impl<'a> DocGen<'a> {
                     "<?xml version=\"1.0\" encoding=\"UTF-8\"?>",
                     "<?xml version='1.0' standalone='yes' ?>",
                     "<?xml  version = '1.1' encoding='x' standalone='no'?>",
-                ][self.rng.below(4)],
+                    "<?xml\tversion='1.0'?>",
+                    "<?xml\nversion=\"1.0\"\tencoding=\"UTF-8\"\r\nstandalone='yes'\n?>",
+                ][self.rng.below(6)],
             );
         }
         let misc = |g: &mut Self, out: &mut String| {
